@@ -2,7 +2,7 @@
 (***************************************************************************)
 (* Trace validation for Usb2Reset.  A trace recorded from the real         *)
 (* USBResetSequencer (or from USBDevice around it) is a sequence of        *)
-(*   full records  [ls, vbus, disc, fso, lso, busy,      inputs of a cycle *)
+(*   full records  [ls, vbus, disc, fso, lso, busy, rst, inputs of a cycle *)
 (*                  br, susp, spd, op, term, txv, txd,   public outputs    *)
 (*                  st]          real FSM state name ("" = not recorded)   *)
 (*   leap records  [dt |-> n]    n further cycles, inputs and outputs as   *)
@@ -32,6 +32,7 @@ Rec == Logs[tid][l]
 IsLeap(r) == "dt" \in DOMAIN r
 
 ObsRec(r) == [ls |-> r.ls, vbus |-> r.vbus, disc |-> r.disc, fso |-> r.fso, lso |-> r.lso, busy |-> r.busy,
+              rst |-> r.rst,
               br |-> r.br, susp |-> r.susp, spd |-> r.spd, op |-> r.op, term |-> r.term,
               txv |-> r.txv, txd |-> r.txd]
 \* What Ref predicts for the observed outputs.  In a device-level trace the termination select seen
@@ -56,7 +57,8 @@ Full(r) ==
      /\ kf' = KfEval(kf, e.m, o)
      /\ evs' = evs \cup e.ev
      /\ sts' = IF r.st = "" THEN sts ELSE sts \cup {r.st}
-     /\ IF drift = 0 /\ agree THEN ref' = RefNext(ref, InOf(o)) /\ drift' = 0
+     /\ IF drift = 0 /\ agree THEN ref' = (IF o.rst THEN RefInit ELSE RefNext(ref, InOf(o))) /\ drift' = 0
+        ELSE IF o.rst THEN ref' = RefInit /\ drift' = drift      \* a domain reset re-synchronises the lock-step
         ELSE ref' = ref /\ drift' = IF drift = 0 THEN l ELSE drift
 
 Leap(n) ==
